@@ -553,7 +553,11 @@ func invalidTexts(valid []Text, thorough bool) []InvalidText {
 func c09Invalid(ctx *core.Ctx, it InvalidText) {
 	y, err := api.Format(it.Text)
 	if err == nil {
-		ctx.Report("invalid text accepted by format", fmt.Sprintf("text %s is rejected by the parser but Format returned no error\n%s", it.Name, core.Trunc(it.Text, 400)),
+		kind := "the parser reports an error"
+		if ok, _ := api.ParserOK(it.Text); ok {
+			kind = "only the lexer reports an error (a character no token matches is silently dropped)"
+		}
+		ctx.Report("invalid text accepted by format|"+kind, fmt.Sprintf("text %s is rejected by the parser but Format returned no error\n%s", it.Name, core.Trunc(it.Text, 400)),
 			map[string]any{"name": it.Name, "text": it.Text})
 		return
 	}
